@@ -118,6 +118,11 @@ def gen_cases(ctx):
     for suf in SUFFIXES:
         cases.append({"op": "file", "format": "csv", "suffix": suf, "encoding": "utf-8", "sep": ",", "header": True, "frame": fr})
         cases.append({"op": "file", "format": "csv", "suffix": suf, "encoding": "latin-1", "sep": ";", "header": True, "frame": fr})
+    # text columns whose every value LOOKS like a date / a number / a boolean: text comes back as text in every typed format
+    for fmt in ("json", "pickle", "npz", "parquet"):
+        for look in (["2024-02-29", "2024-03-01", "", "2024-03-15"], ["007", "1e3", "10", ""], ["True", "False", "True", ""], ["null", "NaN", "None", "-"]):
+            cases.append({"op": "file", "format": fmt, "suffix": rng.choice(SUFFIXES), "encoding": "utf-8", "sep": ",", "header": True,
+                          "frame": {"n": 4, "cols": [{"name": "a", "kind": "int", "vals": [1, 2, 3, 4]}, {"name": "b", "kind": "str", "vals": look}]}})
     n = 260 if ctx.tier == "quick" else 4000
     for _ in range(n):
         cases.append(gen_case(rng, ctx.tier))
